@@ -4,7 +4,9 @@ package main
 // points of /repo/client (client.VerifPause).
 
 import (
+	"runtime"
 	"sync"
+	"sync/atomic"
 	"time"
 
 	"github.com/ovn-org/libovsdb/client"
@@ -20,6 +22,26 @@ type pausePoint struct {
 	reached chan struct{}
 	release chan struct{}
 	once    sync.Once
+	// after its release the goroutine spins at the gate until it opens, then for delay more iterations: two
+	// goroutines parked at two points go on within nanoseconds of each other
+	gate  *spinGate
+	delay int
+}
+
+type spinGate struct{ arrived, open int32 }
+
+// openWhen lets the spinning goroutines go once n of them are there
+func (g *spinGate) openWhen(n int32, d time.Duration) bool {
+	deadline := time.Now().Add(d)
+	for atomic.LoadInt32(&g.arrived) < n {
+		if time.Now().After(deadline) {
+			atomic.StoreInt32(&g.open, 1)
+			return false
+		}
+		runtime.Gosched()
+	}
+	atomic.StoreInt32(&g.open, 1)
+	return true
 }
 
 var pauses = &pauseCtl{armed: map[string]*pausePoint{}}
@@ -40,6 +62,15 @@ func init() {
 		select {
 		case <-p.release:
 		case <-time.After(30 * time.Second): // never hang the process
+			return
+		}
+		if g := p.gate; g != nil {
+			atomic.AddInt32(&g.arrived, 1)
+			for i := 0; atomic.LoadInt32(&g.open) == 0 && i < 2000000000; i++ {
+			}
+			for i := 0; i < p.delay; i++ {
+				_ = atomic.LoadInt32(&g.open)
+			}
 		}
 	}
 }
